@@ -31,12 +31,8 @@ impl FxState {
 }
 
 pub fn read_state(ctx: &Ctx) -> FxState {
-    let v = ctx.snapshot_json(0);
-    FxState {
-        buf: v["buffer"].as_str().expect("buffer").to_string(),
-        typed: v["typed"].as_str().expect("typed").to_string(),
-        pending: v["pending_kar"].as_u64().expect("pending") as u8,
-    }
+    let (buf, typed, pending) = ctx.ctx.verif_fixed_state().expect("fixed method");
+    FxState { buf, typed, pending }
 }
 
 pub fn restore(ctx: &Ctx, s: &FxState) {
